@@ -1111,6 +1111,207 @@ theorem noneFrom_run (c : Cfg) (ks : Nat) (ops : List Op) (s : Store) (h : NoneF
     · subst hm; exact h1.2
     · exact h2.2 evs hm
 
+/-! ### who is named by the events of a cascade -/
+
+/-- every `authenticate()` / `distrust()` call of a cascade, and every held-back entry it applies, is about an
+owner satisfying `P`, if the requested keys are (and `P own` implies `P` of everybody) -/
+theorem authF_event_owners (P : Nat → Prop) (hown : P own → ∀ o, P o) (n : Nat) (s : Store) (keys : List (Nat × Nat))
+    (h1 : ∀ r ∈ keys, P r.1) :
+    (∀ K, Ev.auth K ∈ (authF n own s keys).2 → ∀ r ∈ K, P r.1) ∧
+    (∀ K, Ev.dis K ∈ (authF n own s keys).2 → ∀ r ∈ K, P r.1) ∧
+    (∀ e, Ev.fired e ∈ (authF n own s keys).2 → P e.owner) := by
+  induction n generalizing s keys with
+  | zero =>
+    simp only [authF]; split <;> simp
+  | succ n ih =>
+    by_cases hk : keys = []
+    · simp [hk, authF_nil]
+    · rw [authF_succ _ _ _ hk]
+      simp only [fetchQ_beginAuth]
+      have hf : ∀ e ∈ s.fetchQ own keys, P e.owner := by
+        intro e he
+        obtain ⟨_, _, hq⟩ := (mem_fetchQ _ _ _).mp he
+        rcases hq with hq | hq
+        · obtain ⟨r, hr, hro⟩ := List.mem_map.mp hq
+          exact hown (by rw [← hro]; exact h1 r hr) _
+        · obtain ⟨r, hr, hro⟩ := List.mem_map.mp hq
+          rw [← hro]; exact h1 r hr
+      have ht : ∀ v, ∀ r ∈ targets (s.fetchQ own keys) v, P r.1 := by
+        intro v r hr
+        obtain ⟨e, he, _, her⟩ := (mem_targets _ _ _).mp hr
+        rw [← her]; exact hf e he
+      obtain ⟨ia, id, ifi⟩ := ih ((s.beginAuth keys).takeFired (s.fetchQ own keys)) (targets (s.fetchQ own keys) true) (ht true)
+      refine ⟨?_, ?_, ?_⟩
+      · intro K hK
+        rcases List.mem_append.mp hK with h | h
+        · rcases (mem_append3 _ _ _ _).mp h with h | h | h
+          · rw [(auth_mem_beginAuthEvs _ _ _).mp h]; exact h1
+          · exact absurd h (auth_mem_map _ _)
+          · exact ia K h
+        · exact absurd h (auth_mem_distrustEvs _ _ _)
+      · intro K hK
+        rcases List.mem_append.mp hK with h | h
+        · rcases (mem_append3 _ _ _ _).mp h with h | h | h
+          · exact absurd h (dis_mem_beginAuthEvs _ _ _)
+          · exact absurd h (dis_mem_map _ _)
+          · exact id K h
+        · rw [((dis_mem_distrustEvs _ _ _).mp h).2]; exact ht false
+      · intro e he
+        rcases List.mem_append.mp he with h | h
+        · rcases (mem_append3 _ _ _ _).mp h with h | h | h
+          · exact absurd h (fired_mem_beginAuthEvs _ _ _)
+          · exact hf e ((fired_mem_map _ _).mp h)
+          · exact ifi e h
+        · exact absurd h (fired_mem_distrustEvs _ _ _)
+
+theorem makeTrustDecisions_event_owners (P : Nat → Prop) (hown : P own → ∀ o, P o) (s : Store) (a d : List (Nat × Nat))
+    (ha : ∀ r ∈ a, P r.1) (hd : ∀ r ∈ d, P r.1) :
+    (∀ K, Ev.dis K ∈ (s.makeTrustDecisions own a d).2 → ∀ r ∈ K, P r.1) ∧
+    (∀ e, Ev.fired e ∈ (s.makeTrustDecisions own a d).2 → P e.owner) := by
+  simp only [Store.makeTrustDecisions, Store.authenticate]
+  obtain ⟨_, id, ifi⟩ := authF_event_owners P hown (s.postponed.length + 1) s a ha
+  refine ⟨?_, ?_⟩
+  · intro K hK
+    rcases List.mem_append.mp hK with h | h
+    · exact id K h
+    · rw [((dis_mem_distrustEvs _ _ _).mp h).2]; exact hd
+  · intro e he
+    rcases List.mem_append.mp he with h | h
+    · exact ifi e h
+    · exact absurd h (fired_mem_distrustEvs _ _ _)
+
+/-! ### the cascade depends on sets, not on the order of lists -/
+
+/-- same stored levels, same set of held-back entries, same policy -/
+def Store.Equiv (s t : Store) : Prop :=
+  (∀ o k, s.level o k = t.level o k) ∧ (∀ e, e ∈ s.postponed ↔ e ∈ t.postponed) ∧ s.policy = t.policy
+
+def SameKeys (a b : List (Nat × Nat)) : Prop := ∀ r, r ∈ a ↔ r ∈ b
+
+theorem SameKeys.nil_iff {a b : List (Nat × Nat)} (h : SameKeys a b) : a = [] ↔ b = [] := by
+  constructor
+  · intro ha; subst ha
+    cases b with
+    | nil => rfl
+    | cons x _ => exact absurd ((h x).mpr List.mem_cons_self) (by simp)
+  · intro hb; subst hb
+    cases a with
+    | nil => rfl
+    | cons x _ => exact absurd ((h x).mp List.mem_cons_self) (by simp)
+
+theorem SameKeys.map_fst {a b : List (Nat × Nat)} (h : SameKeys a b) (o : Nat) :
+    o ∈ a.map (·.1) ↔ o ∈ b.map (·.1) := by
+  simp only [List.mem_map]
+  exact ⟨fun ⟨r, hr, e⟩ => ⟨r, (h r).mp hr, e⟩, fun ⟨r, hr, e⟩ => ⟨r, (h r).mpr hr, e⟩⟩
+
+theorem SameKeys.map_snd {a b : List (Nat × Nat)} (h : SameKeys a b) (k : Nat) :
+    k ∈ a.map (·.2) ↔ k ∈ b.map (·.2) := by
+  simp only [List.mem_map]
+  exact ⟨fun ⟨r, hr, e⟩ => ⟨r, (h r).mp hr, e⟩, fun ⟨r, hr, e⟩ => ⟨r, (h r).mpr hr, e⟩⟩
+
+theorem equiv_beginAuth {s t : Store} {a b : List (Nat × Nat)} (hs : s.Equiv t) (hk : SameKeys a b) :
+    (s.beginAuth a).Equiv (t.beginAuth b) := by
+  refine ⟨?_, by simpa using hs.2.1, by simpa using hs.2.2⟩
+  intro o k
+  by_cases hm : (o, k) ∈ a
+  · rw [level_beginAuth_mem _ _ _ _ hm, level_beginAuth_mem _ _ _ _ ((hk _).mp hm)]
+  · have hm' : (o, k) ∉ b := fun h => hm ((hk _).mpr h)
+    rw [level_beginAuth_not_mem _ _ _ _ hm, level_beginAuth_not_mem _ _ _ _ hm', hs.1 o k, hs.2.2]
+    by_cases ho : o ∈ a.map (·.1)
+    · simp [ho, (hk.map_fst o).mp ho]
+    · have ho' : o ∉ b.map (·.1) := fun h => ho ((hk.map_fst o).mpr h)
+      simp [ho, ho']
+
+theorem mem_takeFired (s : Store) (f : List Entry) (e : Entry) :
+    e ∈ (s.takeFired f).postponed ↔ e ∈ s.postponed ∧ ¬ ∃ e' ∈ f, e'.key = e.key ∧ e'.trust = e.trust := by
+  constructor
+  · intro h
+    refine ⟨takeFired_postponed_subset _ _ _ h, ?_⟩
+    rintro ⟨e', he', hk, ht⟩
+    simp only [Store.takeFired, Store.removeDecided, List.mem_filter] at h
+    have h2 := h.2
+    cases hv : e.trust
+    · have : e.key ∈ (targets f false).map (·.2) :=
+        List.mem_map.mpr ⟨(e'.owner, e'.key), (mem_targets _ _ _).mpr ⟨e', he', by rw [ht, hv], rfl⟩, hk⟩
+      simp [hv, this] at h2
+    · have : e.key ∈ (targets f true).map (·.2) :=
+        List.mem_map.mpr ⟨(e'.owner, e'.key), (mem_targets _ _ _).mpr ⟨e', he', by rw [ht, hv], rfl⟩, hk⟩
+      simp [hv, this] at h2
+  · rintro ⟨h1, h2⟩
+    by_cases hin : e ∈ (s.takeFired f).postponed
+    · exact hin
+    · exact absurd (takeFired_removed_only s f e h1 hin) h2
+
+theorem mem_distrust_postponed (s : Store) (K : List (Nat × Nat)) (e : Entry) :
+    e ∈ (s.distrust K).postponed ↔ e ∈ s.postponed ∧ e.sender ∉ K.map (·.2) := by
+  by_cases hK : K = []
+  · simp [hK]
+  · rw [distrust_postponed _ _ hK]; simp [List.mem_filter]
+
+theorem equiv_distrust {s t : Store} {a b : List (Nat × Nat)} (hs : s.Equiv t) (hk : SameKeys a b) :
+    (s.distrust a).Equiv (t.distrust b) := by
+  refine ⟨?_, ?_, by simpa using hs.2.2⟩
+  · intro o k
+    by_cases hm : (o, k) ∈ a
+    · rw [level_distrust_mem _ _ _ _ hm, level_distrust_mem _ _ _ _ ((hk _).mp hm)]
+    · have hm' : (o, k) ∉ b := fun h => hm ((hk _).mpr h)
+      rw [level_distrust_not_mem _ _ _ _ hm, level_distrust_not_mem _ _ _ _ hm', hs.1]
+  · intro e
+    rw [mem_distrust_postponed, mem_distrust_postponed, hs.2.1 e, hk.map_snd e.sender]
+
+theorem fetchQ_congr {s t : Store} {a b : List (Nat × Nat)} (hs : s.Equiv t) (hk : SameKeys a b) (e : Entry) :
+    e ∈ s.fetchQ own a ↔ e ∈ t.fetchQ own b := by
+  rw [mem_fetchQ, mem_fetchQ, hs.2.1 e, hk.map_snd, hk.map_fst, hk.map_fst]
+
+theorem targets_congr {f g : List Entry} (h : ∀ e, e ∈ f ↔ e ∈ g) (v : Bool) : SameKeys (targets f v) (targets g v) := by
+  intro r
+  rw [mem_targets, mem_targets]
+  exact ⟨fun ⟨e, he, x⟩ => ⟨e, (h e).mp he, x⟩, fun ⟨e, he, x⟩ => ⟨e, (h e).mpr he, x⟩⟩
+
+theorem equiv_takeFired {s t : Store} {f g : List Entry} (hs : s.Equiv t) (h : ∀ e, e ∈ f ↔ e ∈ g) :
+    (s.takeFired f).Equiv (t.takeFired g) := by
+  refine ⟨fun o k => hs.1 o k, ?_, hs.2.2⟩
+  intro e
+  rw [mem_takeFired, mem_takeFired, hs.2.1 e]
+  have : (∃ e' ∈ f, e'.key = e.key ∧ e'.trust = e.trust) ↔ (∃ e' ∈ g, e'.key = e.key ∧ e'.trust = e.trust) :=
+    ⟨fun ⟨e', he', x⟩ => ⟨e', (h e').mp he', x⟩, fun ⟨e', he', x⟩ => ⟨e', (h e').mpr he', x⟩⟩
+  rw [this]
+
+/-- **The cascade is a function of sets.**  Equivalent stores and key lists with the same elements give
+equivalent results, whatever the (sufficient) fuel. -/
+theorem authF_equiv (n n' : Nat) (s t : Store) (a b : List (Nat × Nat)) (hs : s.Equiv t) (hk : SameKeys a b)
+    (hn : s.postponed.length < n) (hn' : t.postponed.length < n') :
+    (authF n own s a).1.Equiv (authF n' own t b).1 := by
+  induction n generalizing n' s t a b with
+  | zero => omega
+  | succ n ih =>
+    cases n' with
+    | zero => omega
+    | succ n' =>
+      by_cases ha : a = []
+      · have hb : b = [] := hk.nil_iff.mp ha
+        simp only [ha, hb, authF_nil]; exact hs
+      · have hb : b ≠ [] := fun h => ha (hk.nil_iff.mpr h)
+        rw [authF_succ _ _ _ ha, authF_succ _ _ _ hb]
+        simp only [fetchQ_beginAuth]
+        have hf : ∀ e, e ∈ s.fetchQ own a ↔ e ∈ t.fetchQ own b := fetchQ_congr hs hk
+        have h4 : ((s.beginAuth a).takeFired (s.fetchQ own a)).Equiv ((t.beginAuth b).takeFired (t.fetchQ own b)) :=
+          equiv_takeFired (equiv_beginAuth hs hk) hf
+        apply equiv_distrust _ (targets_congr hf false)
+        by_cases hA : targets (s.fetchQ own a) true = []
+        · have hB : targets (t.fetchQ own b) true = [] := (targets_congr hf true).nil_iff.mp hA
+          simp only [hA, hB, authF_nil]; exact h4
+        · have hB : targets (t.fetchQ own b) true ≠ [] := fun h => hA ((targets_congr hf true).nil_iff.mpr h)
+          have d1 := round_decreases (own := own) s a hA
+          have d2 := round_decreases (own := own) t b hB
+          exact ih n' _ _ _ _ h4 (targets_congr hf true) (by omega) (by omega)
+
+theorem makeTrustDecisions_equiv (s t : Store) (a b d d' : List (Nat × Nat)) (hs : s.Equiv t)
+    (ha : SameKeys a b) (hd : SameKeys d d') :
+    (s.makeTrustDecisions own a d).1.Equiv (t.makeTrustDecisions own b d').1 := by
+  simp only [Store.makeTrustDecisions, Store.authenticate]
+  exact equiv_distrust (authF_equiv _ _ s t a b hs ha (Nat.lt_succ_self _) (Nat.lt_succ_self _)) hd
+
 theorem processed_iff (c : Cfg) (m : Msg) :
     processed c m = true ↔ m.atm = true ∧ ¬ (m.fromAcc = c.own ∧ m.fromRes = c.ownRes) := by
   simp only [processed, Bool.and_eq_true, Bool.not_eq_true', Bool.and_eq_false_iff, decide_eq_false_iff_not]
